@@ -41,6 +41,13 @@ def step (s : St) (toks : List String) : IO (St × Bool) := do
       | none => IO.println "ub"; return ({ s with dead := true }, true)
       | some t' => IO.println "ok"; return ({ s with t := t', m := if (specGet s.m k).isSome then specIns s.m k v else s.m }, false)
     | _, _ => IO.println "bad-op"; return (s, false)
+  | ["newf", k] =>                 -- p_hash_table_new whose k-th allocation fails (0 / beyond the second: none fails)
+    match k.toNat? with
+    | some k =>
+      match newTable (k != 1) (k != 2) with
+      | (none, held) => IO.println s!"null held={held} after-free={held}"; return (s, false)
+      | (some _, held) => IO.println s!"ok held={held} after-free=0"; return (s, false)
+    | none => IO.println "bad-op"; return (s, false)
   | ["ins2", k, v] =>
     match u k, u v with
     | some k, some v =>
